@@ -215,8 +215,14 @@ inline int main_impl(int argc,char **argv,Engine &e,const char *engine_name){
 	if(!getenv("SIMK_NOASLR")){ int pers = personality(0xffffffff); if(pers != -1 && !(pers & ADDR_NO_RANDOMIZE)){ if(personality(pers | ADDR_NO_RANDOMIZE) != -1){ setenv("SIMK_NOASLR","1",1); execv("/proc/self/exe",argv); } } }
 	signal(SIGPIPE,SIG_IGN);
 	bool thorough = tier == "thorough";
-	{ const char *sb = getenv("VERIF_SCRATCH_BASE"); g_scratch = (sb ? std::string(sb) + "/w" : std::string("/dev/shm/verif-")) + std::to_string(getpid()); } mkdir(g_scratch.c_str(),0700);
-	struct Cleanup { ~Cleanup(){ if(!g_in_child){ std::string c = "rm -rf " + g_scratch; (void)!system(c.c_str()); } } } cleanup;
+	// scratch paths have the same LENGTH whatever the process ids are and however the harness was started (bin/check passes /dev/shm/verif-check-<7 digits>):
+	// a path one character longer changes allocation sizes, hence heap addresses, hence the order of address-ordered containers in the code under test
+	static std::string g_scratch_top;
+	{ const char *sb = getenv("VERIF_SCRATCH_BASE"); char b[64]; snprintf(b,sizeof(b),"%07d",(int)getpid());
+	  if(sb && strlen(sb) == strlen("/dev/shm/verif-check-0000000")) g_scratch = std::string(sb) + "/w" + b;
+	  else { g_scratch_top = std::string("/dev/shm/verif-check-") + b; mkdir(g_scratch_top.c_str(),0700); g_scratch = g_scratch_top + "/w" + b; } }
+	mkdir(g_scratch.c_str(),0700);
+	struct Cleanup { ~Cleanup(){ if(!g_in_child){ std::string c = "rm -rf " + (g_scratch_top.empty() ? g_scratch : g_scratch_top); (void)!system(c.c_str()); } } } cleanup;
 	simk::on_fatal = fatal_cb;
 	auto seed_of = [&](long idx){ return mix(base,(uint64_t)idx); };
 
